@@ -337,12 +337,14 @@ theorem makeSubcircuits_class (c : Circuit) (body : List Walk.Stmt) (tbl : List 
 /-- What is assumed of the expanded circuit `x` (each item is a consequence of invariants of `Builder.build` that are not proved
 yet; the differential test checks them on every generated program, because a violation shows as a foreign class):
 * `skel`  — loop counts are Python ints and loop bodies are blocks (`skeleton` does not fail);
+* `big`   — `int(reg.size)` of every fundamental register fails with `JaqalError` only (the sizes are ints);
 * `disj`  — the used-qubit walk of `DiscoverSubcircuits` fails with `JaqalError` only;
 * `size`  — the size of the register is a non-negative Python int;
 * `emu`   — emulating a gate of the circuit fails with `JaqalError` only (`resolve_qubit` of a built qubit; no native gate that
   has a unitary takes a register — for such a gate set the emulator raises `TypeError`, see `RunModel.emuArgs`). -/
 structure ExecClass (x : Circuit) : Prop where
   skel : Cls Good (skeleton x)
+  big : Cls Good (tooLarge x.registers)
   disj : Cls Good (UsedQubits.checkDisjoint x)
   size : SizeInt x
   emu : ∀ body tbl, skeleton x = .ok (body, tbl) → EmuClass x.natives tbl
@@ -362,6 +364,7 @@ theorem execute_class (x : Circuit) (hx : ExecClass x) : Cls Good (execute x) :=
   refine Cls.bind hx.skel (fun p hp => ?_)
   obtain ⟨body, tbl⟩ := p
   simp only []
+  refine Cls.bind hx.big (fun _ _ => ?_)
   cases hd : Walk.discover body with
   | error de =>
     simp only []
